@@ -73,19 +73,32 @@ def lift(x):
     raise TypeError('cannot lift %r' % (type(x),))
 
 
-_SIMPLIFY_CACHE = {}
+_SIMPLIFY_CACHE = {}     # ast id -> (term kept alive, simplified python value or term)
+
+
+def _simp(t, som):
+    """memoised z3.simplify: re-execution of path prefixes rebuilds the same hash-consed terms over and over"""
+    k = (t.get_id(), som)
+    hit = _SIMPLIFY_CACHE.get(k)
+    if hit is not None:
+        return hit[1]
+    s = z3.simplify(t, som=True) if som else z3.simplify(t)
+    if len(_SIMPLIFY_CACHE) > 400000:
+        _SIMPLIFY_CACHE.clear()
+    _SIMPLIFY_CACHE[k] = (t, s)
+    return s
 
 
 def mk_int(t):
     """z3 Int term -> python int when it simplifies to a numeral, else SInt"""
-    s = z3.simplify(t, som=True) if not z3.is_int_value(t) else t
+    s = _simp(t, True)
     if z3.is_int_value(s):
         return s.as_long()
     return SInt(s)
 
 
 def mk_bool(t):
-    s = z3.simplify(t)
+    s = _simp(t, False)
     if z3.is_true(s):
         return True
     if z3.is_false(s):
@@ -353,7 +366,7 @@ class Explorer:
 
     # -- called from symbolic values
     def branch(self, cond, payload=None):
-        cond = z3.simplify(cond)
+        cond = _simp(cond, False)
         if z3.is_true(cond):
             return True
         if z3.is_false(cond):
